@@ -67,17 +67,42 @@ _NUMERIC_WORDS = {'pos', 'start', 'end', 'offset', 'level', 'size', 'index', 'li
                   'name_start', 'name_end', 'i', 'l', 'n', 'length', 'nested', 'priority', 'repeat_guard', 'body_start', 'body_end'}
 
 
+def _terms(e):
+    """additive terms of an expression (through +, -, unary minus and constant factors)"""
+    if isinstance(e, ast.BinOp) and isinstance(e.op, (ast.Add, ast.Sub)):
+        return _terms(e.left) + _terms(e.right)
+    if isinstance(e, ast.UnaryOp) and isinstance(e.op, ast.USub):
+        return _terms(e.operand)
+    if isinstance(e, ast.BinOp) and isinstance(e.op, ast.Mult):
+        if isinstance(e.left, ast.Constant) and isinstance(e.left.value, int):
+            return _terms(e.right)
+        if isinstance(e.right, ast.Constant) and isinstance(e.right.value, int):
+            return _terms(e.left)
+    return [e]
+
+
 def _numeric(e):
-    """is this sum integer arithmetic (then its terms commute)?  Sums of lists / strings keep the order of their operands."""
-    for n in ast.walk(e):
-        if isinstance(n, ast.Constant) and isinstance(n.value, int) and not isinstance(n.value, bool):
+    """is this sum integer arithmetic (then its terms commute)?  Sums of lists / strings keep the order of their operands.
+    Decided on the additive terms themselves (an index inside a subscript says nothing about the sum)."""
+    terms = _terms(e)
+    if any(isinstance(t, (ast.List, ast.Tuple, ast.ListComp, ast.JoinedStr)) or (isinstance(t, ast.Constant) and isinstance(t.value, (str, bytes))) for t in terms):
+        return False
+    for t in terms:
+        if isinstance(t, ast.Constant) and isinstance(t.value, int) and not isinstance(t.value, bool):
             return True
-        if isinstance(n, ast.Call) and isinstance(n.func, ast.Name) and n.func.id in ('len', 'int', 'ord', 'min', 'max', 'abs'):
+        if isinstance(t, ast.Call) and isinstance(t.func, ast.Name) and t.func.id in ('len', 'int', 'ord', 'min', 'max', 'abs'):
             return True
-    leaves = [n for n in ast.walk(e) if isinstance(n, (ast.Name, ast.Attribute))]
-    words = {(n.attr if isinstance(n, ast.Attribute) else n.id) for n in leaves}
-    words = {w.split('_', 2)[-1] if w.startswith(('_acc_', '_fin_')) else w for w in words}
-    return bool(words & _NUMERIC_WORDS) and not any(isinstance(n, (ast.List, ast.Tuple)) for n in ast.walk(e))
+        x = t
+        while isinstance(x, ast.Subscript):
+            x = x.value
+        w = x.attr if isinstance(x, ast.Attribute) else (x.id if isinstance(x, ast.Name) else None)
+        if w is not None:
+            for pre in ('_acc_', '_fin_'):
+                if w.startswith(pre):
+                    w = w[len(pre):]
+            if w in _NUMERIC_WORDS:
+                return True
+    return False
 
 
 class _Canon(ast.NodeTransformer):
@@ -86,9 +111,31 @@ class _Canon(ast.NodeTransformer):
         # super(C, self) == super() inside a method of C
         if isinstance(node.func, ast.Name) and node.func.id == 'super' and len(node.args) == 2:
             return ast.Call(func=node.func, args=[], keywords=[])
+        # old<t>((a, b)) == (old<t>(a), old<t>(b)): a tuple display is evaluated element by element
+        if isinstance(node.func, ast.Name) and node.func.id.startswith('old') and node.func.id[3:].isdigit() and len(node.args) == 1 \
+                and isinstance(node.args[0], ast.Tuple) and not any(isinstance(x, ast.Starred) for x in node.args[0].elts):
+            return ast.Tuple(elts=[x if isinstance(x, ast.Constant) else ast.Call(func=node.func, args=[x], keywords=[]) for x in node.args[0].elts], ctx=ast.Load())
+        return node
+
+    def visit_Subscript(self, node):
+        self.generic_visit(node)
+        # old<t>(f(..))[k] == old<t>(f(..)[k]) for a constant k: a function result indexed by a constant is a returned tuple (an
+        # immutable value), so destructuring it early or late reads the same component
+        v = node.value
+        if isinstance(v, ast.Call) and isinstance(v.func, ast.Name) and v.func.id.startswith('old') and v.func.id[3:].isdigit() and len(v.args) == 1 \
+                and isinstance(v.args[0], ast.Call) and isinstance(node.slice, ast.Constant) and isinstance(node.slice.value, int):
+            return ast.Call(func=v.func, args=[ast.Subscript(value=v.args[0], slice=node.slice, ctx=ast.Load())], keywords=[])
+        # (a, b)[0] == a: a tuple display is an immutable value
+        if isinstance(node.value, ast.Tuple) and isinstance(node.slice, ast.Constant) and isinstance(node.slice.value, int) \
+                and not isinstance(node.slice.value, bool) and -len(node.value.elts) <= node.slice.value < len(node.value.elts) \
+                and not any(isinstance(x, ast.Starred) for x in node.value.elts):
+            return node.value.elts[node.slice.value]
         return node
 
     def visit_BinOp(self, node):
+        if isinstance(node.op, ast.Mod) and isinstance(node.right, ast.Call) and isinstance(node.right.func, ast.Name) and node.right.func.id.startswith('old') \
+                and len(node.right.args) == 1 and isinstance(node.right.args[0], ast.Tuple):
+            node = ast.BinOp(left=node.left, op=node.op, right=self.visit_Call(copy.deepcopy(node.right)))
         parts = strparts(node)
         if parts is not None and len(parts) > 1 and any(isinstance(x, str) for x in parts):
             txt = 'S[' + ' '.join(repr(x) if isinstance(x, str) else '{%s}' % canon(ast.parse(x[1], mode='eval').body) for x in parts) + ']'
@@ -396,6 +443,32 @@ def _env_suffix(case, names, order=None):
     return ' ; '.join(parts)
 
 
+def _replace_breaks(stmts, tail):
+    """the statement list with every `break` of *this* loop (not of nested loops) replaced by a copy of `tail`"""
+    out = []
+    for st in stmts:
+        if isinstance(st, ast.Break):
+            out += [copy.deepcopy(t) for t in tail]
+            continue
+        if isinstance(st, (ast.For, ast.While, ast.FunctionDef, ast.ClassDef)):
+            out.append(st)
+            continue
+        st = copy.copy(st)
+        for field in ('body', 'orelse', 'finalbody'):
+            b = getattr(st, field, None)
+            if isinstance(b, list) and b and isinstance(b[0], ast.stmt):
+                setattr(st, field, _replace_breaks(b, tail))
+        if isinstance(st, ast.Try):
+            hs = []
+            for h in st.handlers:
+                h = copy.copy(h)
+                h.body = _replace_breaks(h.body, tail)
+                hs.append(h)
+            st.handlers = hs
+        out.append(st)
+    return out
+
+
 def segments(project, func, inline=True, select=None):
     """[(label, [Case], carried names)]: the top-level statement list of the normal form cut at its top-level loops:
     'pre' (before the first loop), 'iter<k>' (one generic iteration of loop k; the locals the loop assigns are symbolic
@@ -437,15 +510,23 @@ def segments(project, func, inline=True, select=None):
         for n_ in carried:
             ienv[n_] = ast.Name(id='_acc_' + n_, ctx=ast.Load())
         stmts = list(lp.body)
+        merged_tail = False
         if isinstance(lp, ast.While):
             # the loop test guards the iteration: `if not test: break` first
             stmts = [ast.If(test=ast.UnaryOp(op=ast.Not(), operand=lp.test), body=[ast.Break()], orelse=[])] + stmts
+            if ci == cut[-1] and not lp.orelse:
+                # last loop: every way out of it (test false, break) continues with the statements after the loop, so these are
+                # executed as the tail of the leaving path: `break` + `return x` after the loop and `return x` inside it are one case
+                stmts = _replace_breaks(stmts, list(body[ci + 1:]) + [ast.Return(value=None)])
+                merged_tail = True
         else:
             for t in ast.walk(lp.target):
                 if isinstance(t, ast.Name):
                     ienv[t.id] = ast.Name(id='_elem_' + t.id, ctx=ast.Load())
         ipaths = sympath.feasible(sympath.block_summaries(project, func, stmts, env=ienv, ncall0=100 * k + 50, named_constants=True))
         out.append(('iter%d' % k, _cases_of_paths(ipaths), sorted(carried)))
+        if merged_tail:
+            break
         env = dict(common)
         for n_ in looped:
             env[n_] = ast.Name(id='_fin_' + n_, ctx=ast.Load())
@@ -535,25 +616,168 @@ def _table_rows(project, func, **kw):
     return rows
 
 
-_REL3 = frozenset(('LT', 'EQ', 'GT'))
+_INF = float('inf')
+
+
+class Dom:
+    """set of values an expression may take, as far as the tests of a row constrain it:
+       'fin'  a finite set of tokens (truth values T/F)
+       'lit'  (positive, literals): the value is one of / none of the given literals
+       'iv'   a union of closed integer intervals (integer comparisons; for expressions not known to be integers the lattice
+              is doubled: 2k stands for the point k, 2k+1 for the open interval (k, k+1))"""
+    __slots__ = ('kind', 'val')
+
+    def __init__(self, kind, val):
+        self.kind, self.val = kind, val
+
+    def __bool__(self):
+        if self.kind == 'fin':
+            return bool(self.val)
+        if self.kind == 'lit':
+            return bool(self.val[1]) or not self.val[0]
+        return bool(self.val)
+
+    def __and__(self, o):
+        if self.kind != o.kind:
+            return self            # different views of one key: nothing concluded
+        if self.kind == 'fin':
+            return Dom('fin', self.val & o.val)
+        if self.kind == 'lit':
+            (p1, s1), (p2, s2) = self.val, o.val
+            if p1 and p2:
+                return Dom('lit', (True, s1 & s2))
+            if p1:
+                return Dom('lit', (True, s1 - s2))
+            if p2:
+                return Dom('lit', (True, s2 - s1))
+            return Dom('lit', (False, s1 | s2))
+        out = []
+        for lo1, hi1 in self.val:
+            for lo2, hi2 in o.val:
+                lo, hi = max(lo1, lo2), min(hi1, hi2)
+                if lo <= hi:
+                    out.append((lo, hi))
+        return Dom('iv', tuple(sorted(set(out))))
+
+    def __repr__(self):
+        return 'Dom(%s, %r)' % (self.kind, self.val)
+
+
+_T, _F = Dom('fin', frozenset('T')), Dom('fin', frozenset('F'))
+_INT_LEAF_WORDS = _NUMERIC_WORDS | {'pos', 'start', 'end', 'offset', 'length', 'size', 'lineno'}
+
+
+def _split_terms(text):
+    """'+1 -1*len(a, b) +2*x' -> [(1, '1'), (-1, 'len(a, b)'), (2, 'x')] or None"""
+    import re as _re
+    terms, depth, cur = [], 0, ''
+    for i, ch in enumerate(text):
+        if ch in '([{':
+            depth += 1
+        elif ch in ')]}':
+            depth -= 1
+        if ch == ' ' and depth == 0 and _re.match(r'[+-]\d', text[i + 1:i + 3]):
+            terms.append(cur)
+            cur = ''
+        else:
+            cur += ch
+    terms.append(cur)
+    out = []
+    for t in terms:
+        m = _re.match(r'^([+-]\d+)(?:\*(.+))?$', t)
+        if not m:
+            return None
+        out.append((int(m.group(1)), m.group(2) or '1'))
+    return out
+
+
+def _int_leaf(expr):
+    import re as _re
+    if expr.startswith(('len(', 'ord(', 'int(')) and expr.endswith(')'):
+        return True
+    if '*' in expr and '(' not in expr:
+        return all(_int_leaf(x) for x in expr.split('*'))
+    m = _re.search(r'([A-Za-z_]\w*)(\[[^\]]*\])?$', expr)
+    if not m:
+        return False
+    w = m.group(1)
+    for pre in ('_acc_', '_fin_'):
+        if w.startswith(pre):
+            w = w[len(pre):]
+    return w in _INT_LEAF_WORDS or w.split('_')[-1] in _INT_LEAF_WORDS
 
 
 def atom_domain(atom, pol):
-    """(key, allowed values): an integer comparison `d < 0` / `d > 0` / `d == 0` (or their negations) constrains the sign of d,
-    so tests that differ only in the comparison operator talk about the same key; any other atom is a boolean"""
+    """(key, allowed values).  An integer comparison `c + V < 0` / `> 0` / `== 0` constrains the value of the variable part V to
+    an interval, so tests that differ in the operator or in a constant offset (a < b, a <= b, a == b, a < b + 1, a == 2) all
+    talk about the same key; `e == <literal>` / `e in (<literals>)` constrain the value of e to a set of literals (two different
+    literals exclude each other); any other atom is a boolean."""
     import re as _re
     m = _re.match(r'^(.*) (<|>|==) 0$', atom)
     if m and _re.match(r'^[+-]\d', m.group(1)):
-        rel = {'<': {'LT'}, '>': {'GT'}, '==': {'EQ'}}[m.group(2)]
-        return 'sign(%s)' % m.group(1), frozenset(rel if pol else _REL3 - rel)
-    return atom, frozenset(('T',) if pol else ('F',))
+        terms = _split_terms(m.group(1))
+        if terms:
+            c = sum(k for k, e in terms if e == '1')
+            var = [(k, e) for k, e in terms if e != '1']
+            rel = m.group(2)
+            if var:
+                if var[0][0] < 0:
+                    var = [(-k, e) for k, e in var]
+                    c = -c
+                    rel = {'<': '>', '>': '<', '==': '=='}[rel]
+                k0 = -c                                   # V rel k0
+                ints = all(_int_leaf(e) for _, e in var)
+                if ints:
+                    pt, below, above = k0, k0 - 1, k0 + 1
+                else:
+                    pt, below, above = 2 * k0, 2 * k0 - 1, 2 * k0 + 1
+                if rel == '<':
+                    yes, no = ((-_INF, below),), ((pt, _INF),)
+                elif rel == '>':
+                    yes, no = ((above, _INF),), ((-_INF, pt),)
+                else:
+                    yes, no = ((pt, pt),), ((-_INF, below), (above, _INF))
+                return 'int(%s)' % ' '.join('%+d*%s' % (k, e) for k, e in var), Dom('iv', yes if pol else no)
+    try:
+        e = ast.parse(atom, mode='eval').body
+    except SyntaxError:
+        e = None
+    if isinstance(e, ast.Compare) and len(e.ops) == 1:
+        l, r, op = e.left, e.comparators[0], e.ops[0]
+
+        def lit(x):
+            return isinstance(x, ast.Constant) and isinstance(x.value, (str, bytes))
+        if isinstance(op, ast.Eq) and lit(l) != lit(r):
+            c, other = (l, r) if lit(l) else (r, l)
+            return 'val(%s)' % src_of(other), Dom('lit', (pol, frozenset([repr(c.value)])))
+        if isinstance(op, ast.In) and isinstance(r, (ast.Tuple, ast.List, ast.Set)) and r.elts and all(lit(x) for x in r.elts):
+            return 'val(%s)' % src_of(l), Dom('lit', (pol, frozenset(repr(x.value) for x in r.elts)))
+    return atom, (_T if pol else _F)
 
 
-def _domains(conds):
+def _implied_domains(conds):
+    """constraints that follow from the tests of a row but are not tests themselves: `a in S` holds only for a non-empty S"""
+    out = {}
+    for k, v in conds.items():
+        if not v:
+            continue
+        try:
+            e = ast.parse(k, mode='eval').body
+        except SyntaxError:
+            continue
+        if isinstance(e, ast.Compare) and len(e.ops) == 1 and isinstance(e.ops[0], ast.In) and isinstance(e.comparators[0], (ast.Name, ast.Attribute)):
+            out[src_of(e.comparators[0])] = _T
+    return out
+
+
+def _domains(conds, implied=False):
     out = {}
     for k, v in conds.items():
         key, allowed = atom_domain(k, v)
-        out[key] = out.get(key, allowed) & allowed
+        out[key] = (out[key] & allowed) if key in out else allowed
+    if implied:
+        for key, allowed in _implied_domains(conds).items():
+            out[key] = (out[key] & allowed) if key in out else allowed
     return out
 
 
@@ -565,14 +789,15 @@ def check_rows(have, want):
     agree; this is only concluded when the analysed path tests nothing outside the reviewed vocabulary of keys (a new
     atom may be an equivalent spelling of an old one, so nothing is concluded then).  Integer comparisons are keyed by the
     compared difference, so `a < b`, `a <= b` and `a == b` are tests of the same key."""
-    W = [(_domains(wc), wc, wo) for wc, wo in want]
-    H = [(_domains(hc), hc, ho) for hc, ho in have]
     vocab = set()
-    for d, _, _ in W:
-        vocab |= set(d)
+    for wc, _ in want:
+        vocab |= set(_domains(wc))
     hv = set()
-    for d, _, _ in H:
-        hv |= set(d)
+    for hc, _ in have:
+        hv |= set(_domains(hc))
+    W = [(_domains(wc, True), wc, wo) for wc, wo in want]
+    H = [(_domains(hc, True), hc, ho) for hc, ho in have]
+    W = [w for w in W if all(w[0].values())]        # rows whose tests contradict each other describe no input
     if hv - vocab:
         return 'unknown', 'tests outside the reviewed vocabulary: %s' % sorted(hv - vocab)[:4]
 
